@@ -507,6 +507,11 @@ func (t *tree) parseSwitch(token item, end itemType) ast.Node {
 			}
 			t.unexpected(tok, "between switch cases")
 		case itemCase, itemDefault:
+			// {default} is the last clause: what follows it could never be chosen
+			// (and the two backends would not agree on which clause wins).
+			if len(cases) > 0 && cases[len(cases)-1].Values == nil {
+				t.unexpected(tok, "after {default}, which is the last clause")
+			}
 			cases = append(cases, t.parseCase(tok))
 		case end:
 			t.expect(itemRightDelim, ctx)
